@@ -287,14 +287,14 @@ pub fn property() -> Property {
                 size: |_| 65536 * 11,
                 exhaustive: |_| true,
                 check: check_ctor,
-                describe: |i| json!({"id": format!("{:#06x}", i / 11), "data_len": i % 11}),
+                describe: |_t, i| json!({"id": format!("{:#06x}", i / 11), "data_len": i % 11}),
                 required_classes: &["accepted", "rejected"],
             }),
             Box::new(GenPart {
                 name: "chains-end-to-end",
                 rule: "see property rule",
                 cases: (1_200_000, 5_000_000),
-                fuzz_decode: None,
+                fuzz_decode: Some(crate::fuzzdec::c13_case),
                 strategy: chain_strategy,
                 check: check_chain,
                 required_classes: &["fragmented", "complete", "final-mandatory", "storage==pdu", "receiver-does-not-know-a-mandatory-id", "receiver-knows-all"],
